@@ -55,6 +55,7 @@ MUTANTS = [
     M(["C19"], "unit factor on the vertices only", D + "traces_utility.py", "new_vertices = (vertices * scale + position).T * length_factor", "new_vertices = (vertices * scale * length_factor + position).T"),
     M(["C19"], "style written outside the temp region", D + "traces_utility.py", "        if style.label is None:\n            style.label = str(type(subobj).__name__)",
       "        if style.label is None:\n            style.label = str(type(subobj).__name__)\n        subobj.style.label = style.label"),
+    M(["C19"], "displayed positions use other indices than the orientations", D + "traces_utility.py", "    poss = pos[inds]\n", "    poss = pos[inds - 1]\n"),
     M(["C19", "C20"], "style_temp_edit without finally", "magpylib/_src/utility.py", "    try:\n        # temporary replace style attribute\n        obj._style = style_temp\n        if style_temp and copy:\n            # deepcopy style only if obj is in multiple subplots.\n            obj._style = style_temp.copy()\n        yield\n    finally:\n        obj._style = orig_style",
       "    obj._style = style_temp\n    if style_temp and copy:\n        obj._style = style_temp.copy()\n    yield\n    obj._style = orig_style"),
     # ------------------------------------------------------------------ flow family (C08, C11, C18)
@@ -64,6 +65,11 @@ MUTANTS = [
     M(["C08"], "functional interface shares the caller's arrays", F + "field_wrap_BH.py", "                val = np.array(val, dtype=float)\n        except TypeError as err:", "                val = np.asarray(val, dtype=float)\n        except TypeError as err:"),
     M(["C17"], "make_float_array without copy", "magpylib/_src/input_checks.py", "        inp_array = np.array(inp, dtype=float)", "        inp_array = np.asarray(inp, dtype=float)"),
     M(["C08"], "new object state written on the field path", F + "field_wrap_BH.py", "    src_props = group[0]._field_func_kwargs_ndim\n", "    src_props = group[0]._field_func_kwargs_ndim\n    group[0]._last_n_pix = n_pix\n"),
+    M(["C08"], "twin: reset extracted into a helper called in the finally clause", F + "field_wrap_BH.py",
+      ["def tile_group_property(group: list, n_pp: int, prop_name: str):",
+       "        for obj, m0 in zip(reset_obj, reset_obj_m0):\n            obj._position = obj._position[:m0]\n            obj._orientation = obj._orientation[:m0]"],
+      ["def _reset_paths(objs, lens):\n    for obj, m0 in zip(objs, lens):\n        obj._position = obj._position[:m0]\n        obj._orientation = obj._orientation[:m0]\n\n\ndef tile_group_property(group: list, n_pp: int, prop_name: str):",
+       "        _reset_paths(reset_obj, reset_obj_m0)"], expect="silent"),
     M(["C08"], "twin: tiling via local padded arrays (no writes)", F + "field_wrap_BH.py", "    obj_list = set(src_list + sensors)  # unique obj entries only !!!", "    obj_list = set(sensors + src_list)  # unique obj entries only !!!", expect="silent"),
     M(["C11"], "views not refreshed after add", O + "class_Collection.py", "        finally:\n            self._update_src_and_sens()\n        return self", "        finally:\n            pass\n        return self"),
     M(["C11"], "cycle test dropped", O + "class_Collection.py", "                if obj is self or self in obj.collections_all:", "                if False:"),
